@@ -209,6 +209,13 @@ def writeForever():
     else:
       # Avoid churning CPU when there are no metrics are in the cache
       time.sleep(1)
+  # The reactor is shutting down: whatever was accepted while this thread was
+  # asleep (or held back by MIN_TIMESTAMP_LAG, which shutdown resets to 0) is
+  # still in the cache. Write it out before the thread exits.
+  try:
+    writeCachedDataPoints()
+  except Exception:
+    log.err()
 
 
 def writeTags():
